@@ -1361,10 +1361,10 @@ func c20BDCheck(ctx *vfCtx, c c20BDCase) {
 }
 
 func init() {
-	vfRapid("C20/issue", c20Rule, 500, 10000, 2, c20GenCase(c20OpsIssue), c20Check)
-	vfRapid("C20/alter", c20Rule, 700, 20000, 4, c20GenCase(c20OpsAlter), c20Check)
-	vfRapid("C20/caveats", c20Rule, 500, 12000, 2, c20GenCase(c20OpsCaveats), c20Check)
-	vfRapid("C20/expiry", c20Rule, 300, 8000, 2, c20GenCase(c20OpsExpiry), c20Check)
+	vfRapid("C20/issue", c20Rule, 1500, 10000, 2, c20GenCase(c20OpsIssue), c20Check)
+	vfRapid("C20/alter", c20Rule, 2500, 20000, 4, c20GenCase(c20OpsAlter), c20Check)
+	vfRapid("C20/caveats", c20Rule, 3000, 24000, 4, c20GenCase(c20OpsCaveats), c20Check)
+	vfRapid("C20/expiry", c20Rule, 1000, 8000, 2, c20GenCase(c20OpsExpiry), c20Check)
 	vfEnum("C20/realtime", c20Rule, 2, 4, 1, c20RTEnum, c20RTCheck)
 	vfEnum("C20/boundary", c20BoundaryRule, 2, 4, 1, c20BDEnum, c20BDCheck)
 }
